@@ -37,7 +37,7 @@ REQUIRED = ["KV.C08.constants_ok", "KV.C08.hyp_of_build", "KV.C08.extendLeft_eq"
             "KV.C08.beginNonTerminal_rule", "KV.C08.any_derivation_leftToRight", "KV.C08.no_rest_fragment_table",
             "KV.C08.no_rest_fragment", "KV.C08.subsume_frag", "KV.C08.derivation_score_unique",
             "KV.C08.subsume_whole_minus_parts", "KV.C08.reveal_after", "KV.C08.reveal_after_whole_minus_parts", "KV.C08.reveal_before", "KV.C08.reveal_before_whole_minus_parts", "KV.C08.reveal_both", "KV.C08.reveal_both_whole_minus_parts",
-            "KV.C08.any_derivation_fails_with_dropped_marks"]
+            "KV.C08.any_derivation_fails_with_dropped_marks", "KV.C08.open_states_square", "KV.C08.nonterminal_dead_branches"]
 
 KEY_G = "trie-drops-extension-marks-of-trailing-blanks"
 
@@ -358,6 +358,9 @@ def tolerance(k, a, rest=False):
 
 
 # ------------------------------------------------------------------ comparison of one op
+SHAPES = []
+
+
 def compare_op(op, il, ml, loaded, info, qfit, subnormal):
     """-> list of problems {kind, cls, detail}"""
     probs = []
@@ -395,7 +398,12 @@ def compare_op(op, il, ml, loaded, info, qfit, subnormal):
                 if rest:      # rest costs are not among the oracle's terms: add the magnitude of the fragment scores
                     tl = tl + tolerance(k, sum(abs(frac(y[0])) for y in rm), rest)
                 for j, (x, y) in enumerate(zip(ri, rm)):
-                    d = chart_diff(chart(x[1:7]), chart(y[1:7]), pi, pm, numeric)
+                    cx = chart(x[1:7])
+                    if not cx["full"]:
+                        # evidence only: open states made by RuleScore are "square"; this is what makes
+                        # lm/left.hh:106 and :136 (in.right.length < in.left.length) unreachable through the API
+                        SHAPES.append("square" if cx["rlen"] == cx["llen"] else "right%+d" % (cx["rlen"] - cx["llen"]))
+                    d = chart_diff(cx, chart(y[1:7]), pi, pm, numeric)
                     if d:
                         probs.append({"kind": "chart-state", "cls": c, "node": j, "detail": d, "impl": " ".join(x), "model": " ".join(y)})
                         break
@@ -625,6 +633,9 @@ def left_stream(ctx, hexe, dexe, n_cases, quick):
             probs = compare_op(op, o1[1 + oi], o2[1 + oi], loaded, info, qfit, subnormal)
             k = op.split()[0]
             ctx.hist("left.op", k)
+            for sh in set(SHAPES):
+                ctx.hist("left.open_state_shape", sh)
+            del SHAPES[:]
             nontriv = True
             if k in "dD":
                 nontriv = "(" in op
@@ -696,6 +707,6 @@ def run(ctx):
     ctx.assumptions += ["64-bit hash injectivity on the n-grams of each generated model",
                         "float32 sums within 8(k+1)*2^-23*sum|terms| of the exact rational value (16x for rest-cost models)",
                         "quantised classes compared in value only when every order's value count fits the bins",
-                        "REST_LOWER only with lower-order files listing the same unigrams in the same order and containing <unk>",
+                        "REST_LOWER only with lower-order files listing the same unigrams in the same order (with or without <unk>)",
                         "Subsume only with between_length = 0"]
     flow.report_obligation_failures(ctx, problems, found)
